@@ -58,9 +58,26 @@ def main():
             try:
                 gen = importlib.import_module("fcp_" + op["g"]).Generator()
                 import contextlib, io
+                # every generator of this process writes into ONE directory that is never cleaned: what ends up on disk for a
+                # schema must not depend on what an earlier generation left there
+                disk = os.path.join(outdir, "disk-%d" % os.getpid(), op["g"])
                 with contextlib.redirect_stdout(io.StringIO()):
-                    res = gen.generate(tree, {"output": outdir, "templates": {}, "skels": {}})
-                files = out_of(list(res), outdir)
+                    res = list(gen.generate(tree, {"output": disk, "templates": {}, "skels": {}}))
+                files = out_of(res, disk)
+                try:
+                    from fcp.codegen import handle_result
+                    with contextlib.redirect_stdout(io.StringIO()):
+                        for r in res:
+                            if isinstance(r, dict) and r.get("type") == "file":
+                                handle_result(r)
+                    for r in res:
+                        if isinstance(r, dict) and r.get("type") == "file":
+                            pth = os.path.abspath(str(r.get("path")))
+                            with open(pth, "r", newline="", errors="replace") as fh:
+                                onfile = _STAMP.sub("// Generated using fcp <stamp>", fh.read())
+                            files["<disk>" + os.path.relpath(pth, os.path.abspath(disk))] = hashlib.sha1(onfile.encode()).hexdigest()[:16]
+                except ImportError:
+                    pass
             except Exception as e:
                 files = {"<raised>": type(e).__name__}
             print(json.dumps({"g": op["g"], "s": s, "mode": op["mode"], "files": files}))
